@@ -45,7 +45,7 @@ ANCHORS = ['pfhedge.nn.modules.hedger:Hedger.compute_hedge',
            'pfhedge.nn.functional:quadratic_cvar']
 DECIDING = ["grad.matches_fd", "nograd.no_graph", "grad.enable_grad_has_graph"]
 REQUIRED_BRANCHES = ["grad_after_no_grad_pass", "branch.stepwise", "branch.vectorised", "cost>0", "criterion.QuadraticCVaR.concentrated", "mode.eval", "mode.train",
-                     "output_activation.saves_output", "H>1", "model.clamp_with_parameter_dependent_bounds"]
+                     "output_activation.saves_output", "H>1", "model.clamp_with_parameter_dependent_bounds", "prev_hedge.through_parameter_free_module_output"]
 
 
 def _u(x):
@@ -131,10 +131,19 @@ def drv_grad(ctx, k, rng):
     prev = bool(rng.random() < 0.5)
     if k % 8 == 7:
         prev = True  # deterministic coverage: a band model whose clamp bounds carry the parameters (below)
+    if k % 8 == 1:
+        prev = True  # deterministic coverage: prev_hedge through a parameter-free module-output feature (below)
     if k % 8 == 5:
         prev = False  # deterministic coverage: vectorised branch with an output activation that saves its output
     if prev:
-        feats = feats + ["prev_hedge"]
+        # the previous hedge as the plain feature, or passed through a parameter-free module-output feature (a squash / band): the gradient
+        # flows through the module's *input* even though the module itself has nothing to train
+        wrap = pick(rng, ["plain", "plain", "tanh", "identity"]) if k % 8 != 1 else "tanh"
+        if wrap == "plain":
+            feats = feats + ["prev_hedge"]
+        else:
+            feats = feats + [ModuleOutput(torch.nn.Tanh() if wrap == "tanh" else torch.nn.Identity(), ["prev_hedge"])]
+            ctx.branch("prev_hedge.through_parameter_free_module_output")
     n_in = len(feats) + (n_h - 1 if prev else 0)
     model, mk, oa = make_model(rng, n_in, n_h, prev)
     if k % 8 == 5:
